@@ -1307,6 +1307,12 @@ func (w *responseWriter) reportEnd(end *responseEnd) {
 		w.respMeta.end = end
 		w.flushHeaders()
 	default:
+		// The backend's response headers have not been processed, so any
+		// framing it has declared so far is still in the header map. It
+		// describes a body that will not be sent.
+		w.Header().Del("Content-Length")
+		w.Header().Del("Content-Encoding")
+		w.Header().Del("Trailer")
 		w.respMeta = &responseMeta{end: end}
 		w.flushHeaders()
 	}
